@@ -212,6 +212,25 @@ func c07Run(c *fw.Ctx) {
 			c.Note("quick samples every %d-th boundary vector of %s (%d vectors); thorough runs all", stride, s.Name, total*len(tails))
 		}
 	}
+	// 1b. LIMIT offset/count over the full boundary pool (never sampled)
+	for _, form := range [][]string{{"ZRANGEBYSCORE"}, {"ZREVRANGEBYSCORE"}, {"ZRANGE", "BYSCORE"}, {"ZRANGE", "BYSCORE", "REV"}} {
+		for _, key := range []string{"z", "nokey", "s"} {
+			for _, rng := range [][2]string{{"-inf", "+inf"}, {"+inf", "-inf"}, {"(1", "3"}, {"3", "1"}} {
+				for _, o := range c07Boundary {
+					for _, n := range c07Boundary {
+						for _, ws := range [][]string{nil, {"WITHSCORES"}} {
+							args := append(append([]string{form[0], key, rng[0], rng[1]}, form[1:]...), append([]string{"LIMIT", o, n}, ws...)...)
+							in := concat(grammar.Encode(args), ping)
+							for size, setup := range setups {
+								run(c07Case{Store: "example", Setup: setup, Input: in}, form[0]+"|limit/example-store/"+size)
+							}
+							run(c07Case{Store: "double", Input: in}, form[0]+"|limit/double")
+						}
+					}
+				}
+			}
+		}
+	}
 	// 2. frames that are not commands
 	tops := []resp.Value{
 		resp.A(), resp.A(resp.Nil()), resp.A(resp.Nil(), resp.B("k")), resp.A(resp.A()), resp.A(resp.A(resp.Nil())), resp.A(resp.A(resp.A())),
